@@ -39,10 +39,10 @@ Definition bc_token (c : bchunk) : bytes := match c with BC _ t => t end.
 Inductive case :=
 (* Compress middleware + Encoder: parsed Accept-Encoding (None: header absent / unparsable),
    compressible content type, status, handler-set Content-Encoding, handler Vary values, the
-   handler's NO_CHUNKING flag (`.no_chunking(len)`), body size,
+   handler's NO_CHUNKING flag and Content-Length header (`.no_chunking(len)` sets both), body size,
    body chunks, scripted takes (one per body chunk) and finish *)
 | CResp (ae : option (list qitem)) (compressible : bool) (status : N) (ce : option bytes)
-        (vary : list bytes) (no_chunking : bool) (size : bsize) (body : list bchunk) (takes : list bytes) (finish : bytes)
+        (vary : list bytes) (no_chunking : bool) (cl : option bytes) (size : bsize) (body : list bchunk) (takes : list bytes) (finish : bytes)
         (oracle : list bool)
 (* request Decoder: has a decoder (supported Content-Encoding) or not, wire chunks, scripted feed
    results (one per wire chunk; None = io error) and feed_eof result *)
@@ -58,7 +58,7 @@ Definition VSize (s : bsize) : V :=
   match s with SzNone => VT "none" [] | SzSized n => VT "sized" [VN n] | SzStream => VT "stream" [] end.
 Definition VHead (h : head) : V :=
   VT "head" [VN (h_status h); VOpt VBytes (h_content_encoding h); VL (map VBytes (h_vary h));
-             VBool (h_no_chunking h)].
+             VBool (h_no_chunking h); VOpt VBytes (h_content_length h)].
 
 (* after the end has been reported: three more polls *)
 Fixpoint e_after (n : nat) (s : enc_st SE) : list V :=
@@ -83,8 +83,9 @@ Fixpoint d_after (n : nat) (s : dec_st SD) : list V :=
 
 Definition run_C13 (c : case) : V :=
   match c with
-  | CResp ae compressible status ce vary nochunk size body takes finish o =>
-      let h := {| h_status := status; h_content_encoding := ce; h_vary := vary; h_no_chunking := nochunk |} in
+  | CResp ae compressible status ce vary nochunk cl size body takes finish o =>
+      let h := {| h_status := status; h_content_encoding := ce; h_vary := vary; h_no_chunking := nochunk;
+                  h_content_length := cl |} in
       match compress ae compressible h size with
       | NotAcceptable => VT "not_acceptable" []
       | Responded a h' sz =>
